@@ -31,8 +31,11 @@ def seeded_section():
                 anyc = True
             else:
                 cells.append('%s quiet (rc=%d)' % (p, v['rc']))
-        caught += anyc
-        missed += (not anyc and bool(r))
+        if m.get('harmless'):
+            cells = ['all %d checks quiet, as required' % len(r)] if (r and not anyc) else cells
+        else:
+            caught += anyc
+            missed += (not anyc and bool(r))
         summ = m.get('summary', '').replace('|', '/').replace('\n', ' ')
         need = m.get('needs', '').replace('|', '/').replace('\n', ' ')
         rows.append('| `%s` | %s | %s | %s |' % (n, summ[:260], need[:200], '; '.join(cells) or 'not run'))
